@@ -5,6 +5,7 @@
 //                           c<dst>=<src>   node(dst).kids = node(src).kids          (copy assignment)
 //                           m<dst>=<src>   node(dst).kids = Move(node(src).kids)    (move assignment)
 //                           r<path>        node(path).kids.Reset()
+//                           z<path>:<n>    node(path).kids.ResizeAndInitialize(n)   v<path>:<n>  kids.Reserve(n, true)
 //   path = indices joined by '.', "" or "-" = the root.   Output: dump of the whole tree after every op, '|'-joined.
 #include <new>
 #include "ledger.hpp"
@@ -15,6 +16,7 @@ using namespace Qentem;
 struct Node {
     Array<Node> kids;
     unsigned    id{0};
+    unsigned    tag{0x5A5A}; // a default item is NOT all zeros
 };
 
 static Node *at(Node &root, const std::string &path) {
@@ -30,6 +32,7 @@ static Node *at(Node &root, const std::string &path) {
 
 static void dump(std::string &out, const Node &n) {
     out += std::to_string(n.id);
+    if (n.tag != 0x5A5A) out += "!tag" + std::to_string(n.tag);
     if (n.kids.Size() != 0) {
         out += '(';
         for (SizeT i = 0; i < n.kids.Size(); i++) {
@@ -61,6 +64,14 @@ static std::string run(const std::string &prog) {
                 if (!d || !s) return "bad-path";
                 if (k == 'c') d->kids = s->kids;
                 else d->kids = Memory::Move(s->kids);
+            } else if (k == 'z' || k == 'v') {
+                // z<path>:<n>  kids.ResizeAndInitialize(n)   v<path>:<n>  kids.Reserve(n, true)
+                size_t c = rest.find(':');
+                Node  *p = at(root, rest.substr(0, c));
+                if (!p) return "bad-path";
+                const SizeT n = SizeT(atoi(rest.c_str() + c + 1));
+                if (k == 'z') p->kids.ResizeAndInitialize(n);
+                else p->kids.Reserve(n, true);
             } else if (k == 'r') {
                 Node *p = at(root, rest);
                 if (!p) return "bad-path";
